@@ -58,7 +58,9 @@ func (f *Tagbody) Call(s *slip.Scope, args slip.List, depth int) slip.Object {
 			case *slip.ReturnResult:
 				return tr
 			case *GoTo:
-				for i++; i < len(args); i++ {
+				// The tag can be anywhere in the body, before the go as
+				// well.
+				for i = 0; i < len(args); i++ {
 					if args[i] == tr.Tag {
 						break
 					}
